@@ -233,3 +233,31 @@ Section Bag.
     rewrite E. apply Permutation_map. apply TR_perm.
   Qed.
 End Bag.
+
+(* ---------- consequences for the(...) and for result-count constraints (Spec side of C09) ---------- *)
+From Krrood Require Import Eql.QuantSpec.
+
+Lemma the_spec_perm {A} (l l' : list A) : Permutation l l' -> the_spec l = the_spec l'.
+Proof.
+  intros H. pose proof (Permutation_length H) as Hl.
+  destruct l as [|a [|b l]]; destruct l' as [|a' [|b' l']]; simpl in *; try discriminate; auto.
+  apply Permutation_length_1 in H. now subst.
+Qed.
+
+Section BagThe.
+  Variable W : world.
+  Variable D : domains.
+  Hypothesis Dnodup : forall x, NoDup (D x).
+
+  (* the(...) over the model's rows behaves exactly as over the enumeration of the satisfying assignments:
+     it returns the row when there is exactly one, NoSolutionFound when none, MultipleSolutionFound when several *)
+  Theorem the_sees_true_count q c :
+    q_cond q = Some c -> nnf c = true ->
+    (forall x, In x (flat_map opnd_vars (q_sels q)) -> In x (cond_vars c)) ->
+    the_spec (run W D q) = the_spec (answers_exec W D q) /\ length (run W D q) = length (answers_exec W D q).
+  Proof.
+    intros Ec Nc Hr. pose proof (run_perm W D Dnodup q c Ec Nc Hr) as P. split.
+    - now apply the_spec_perm.
+    - now apply Permutation_length.
+  Qed.
+End BagThe.
